@@ -358,6 +358,9 @@ class Market(Sector):
         for sector in self.Parent.GetSectors():
             if sector.ID == self.ID:
                 continue
+            if sector in [x[0] for x in self.OtherSuppliers]:
+                # It supplies by a stated rule already: it cannot be the one that supplies whatever is left.
+                continue
             if 'SUP_' + self.Code in sector.EquationBlock.Equations:
                 if ret_value is None:
                     ret_value = sector
